@@ -115,3 +115,21 @@ for pid, what in [
         "Trusts the fs_event hooks to see every mutating call (self-checked against the real files after every recorded run); crash granularity "
         "is one system call; no OS write reordering; creation of the empty database is outside the quantifier.",
         "DESIGN.md §6 " + pid + ", §5.5")
+
+add("C05", "exploration", ["dbh"], dbh("c05", ["--n", "1600"], ["--n", "20000", "--steps", "30"]),
+    "exact canonical-dump equality across random maintenance sequences",
+    "Generated histories followed by random sequences of reopen (every file-backed variant), optimize_storage, shrink_to_fit, backup (opened as "
+    "Db/DbFile/DbMemory), copy, rename; the exact dump (ids, result order, properties in order, aliases, index listing order and contents, "
+    "adjacency order) must equal the dump taken before.",
+    "Dumps are taken through public queries only; databases up to a few hundred elements.", "DESIGN.md §6 C05")
+add("C06", "exploration", ["dbh"], dbh("c06", ["--n", "200"], ["--n", "5000", "--len", "100"]),
+    "lock-step differential execution on the six database variants",
+    "The same generated history (incl. failing queries, rolled back transactions, values above 64 KiB and bursts above 8192 nodes) executed on "
+    "DbMemory, DbFile, Db and the three DbAny kinds: equal QueryResult or all Err after every query, equal exact dumps periodically and at the end.",
+    "Error texts are not compared. The memory variant is the reference for the generator's model.", "DESIGN.md §6 C06")
+add("C12", "exploration", ["dbh"], dbh("c12", ["--random-cases", "200"], ["--random-cases", "3000"]),
+    "bitwise read-back of an enumerated boundary value set + random values on every variant and read path",
+    "A finite boundary set (lengths 0..40 around the 15/16-byte inline limit, multi-byte characters, integer extremes, all float classes incl. "
+    "NaN payloads, vectors of length 0..5) enumerated completely plus random values, each as key and as value, on four variants, read back live, "
+    "after reopen and after backup->DbMemory; equality is bitwise.",
+    "NaN used as a key is looked up by listing (select all / keys); a failing select-by-key for a NaN key is counted, not judged.", "DESIGN.md §6 C12")
